@@ -292,3 +292,52 @@ func VerifC14_ExtractHash() {
 	}
 	ExtractHashAndData(data)
 }
+
+// VerifC03_AfterDamagedValue: a damaged searchable value (index of one value on the envelope of another) leaves
+// nothing behind: the value processed next on the same connection — another searchable value, arbitrary bytes, or
+// the same damaged value again — is revealed or returned on its own merits.
+func VerifC03_AfterDamagedValue() {
+	crypto.InitRegistry(nil)
+	s := verifStore()
+	rh := crypto.NewRegistryHandler(s)
+	st := verifSetting(verif.Choose("kind", 0, 1))
+	enc, _ := NewSearchableEncryptor(s, rh, rh)
+	d1, d2 := []byte("first value"), []byte("second") // the values are fixed here; what varies is what comes next
+	v1, err := enc.EncryptWithClientID([]byte("A"), verifDup(d1), st)
+	if err != nil {
+		return
+	}
+	v2, err := enc.EncryptWithClientID([]byte("A"), verifDup(d2), st)
+	if err != nil {
+		return
+	}
+	hs := GetDefaultHashSize()
+	proc := NewHMACProcessor(s)
+	det := crypto.NewEnvelopeDetector()
+	wrapper := crypto.NewOldContainerDetectorWrapper(det)
+	det.AddCallback(crypto.NewDecryptHandler(s, rh))
+	run := func(col []byte) []byte {
+		ctx := verifCtx("A")
+		ctx, out, _ := proc.OnColumn(ctx, verifDup(col))
+		ctx, out, _ = wrapper.OnColumn(ctx, out)
+		_, out, _ = proc.OnColumn(ctx, out)
+		return out
+	}
+	damaged := append(verifDup(v2[:hs]), v1[hs:]...)
+	out := run(damaged)
+	verif.Assert(verif.Eq(out, damaged), "damaged-value-unchanged")
+	verif.Reach("damaged-read")
+	switch verif.Choose("next", 0, 2) {
+	case 0:
+		garbage := verif.Bytes("garbage", verif.Choose("n", 0, 2))
+		out = run(garbage)
+		verif.Assert(verif.Eq(out, garbage), "next-column-garbage-unchanged")
+	case 1:
+		out = run(damaged)
+		verif.Assert(verif.Eq(out, damaged), "damaged-value-again-unchanged")
+	case 2:
+		out = run(v2)
+		verif.Assert(verif.Eq(out, d2), "next-searchable-value-revealed")
+	}
+	verif.Reach("next-read")
+}
